@@ -19,6 +19,7 @@ import numpy as np
 
 from .. import core
 from ..impl import cbca_adapter as ad
+from ..impl import cbca_steps_kernels as steps_kernels
 
 PROP = "C11"
 INTENSITIES = [Fraction(1, 2), Fraction(1), Fraction(2), Fraction(3), Fraction(5), Fraction(21, 2), Fraction(30)]
@@ -27,7 +28,7 @@ INTENSITIES = [Fraction(1, 2), Fraction(1), Fraction(2), Fraction(3), Fraction(5
 def translate():
     from translator import registry
 
-    return registry.generate("Cbca", "KernelsCbca")
+    return registry.generate("Cbca", "KernelsCbca", "KernelsCbcaSteps")
 
 
 # --------------------------------------------------------------------------------------------
@@ -659,6 +660,7 @@ def run(ctx, report, status):
     )
     rng = ctx.rng
     kernel_cross_check(ctx, report, status)
+    steps_kernels.cross_check(ctx, report, status, ctx.n(120, 1500))  # cbca_step_1..4 regenerated (T14, array-state kernels)
     for name, case in core.load_corpus(PROP):
         check_case(ctx, report, case.get("input", case), "corpus:" + name, rule, independence=True)
     for case in directed_arms():
